@@ -547,6 +547,9 @@ Proof.
     lia.
   - intros H; inversion H; subst. eapply le3_weaken; [apply le3_refl|lia].
   - intros H; inversion H; subst. eapply le3_weaken; [apply le3_refl|lia].
+  - (* SResumeReq *) destruct (a_st a); intros H; inversion H; subst;
+      try (eapply le3_weaken; [apply le3_refl|lia]).
+    eapply le3_weaken; [|apply Nat.le_0_l]. apply le3_quiet; [rewrite Phi_deliver_plain by exact I; lia|reflexivity].
 Qed.
 
 Lemma le3_process_user s u e s' o p : RI s -> process_user roles s u e = (s', o, p) -> le3 s s' o 0.
